@@ -116,6 +116,14 @@ class VConst(V):
 
 
 @dataclasses.dataclass
+class VMaybeUnbound(V):
+    """A local that is bound only if a loop body ran at least once."""
+
+    val: V
+    sort = "MaybeUnbound"
+
+
+@dataclasses.dataclass
 class VList(V):
     """Python-level list of symbolic values with statically known length (literals, small lists)."""
 
@@ -187,6 +195,7 @@ class Contract:
     pure: bool = True
     note: str = ""
     prune: bool = False
+    decreases: typing.Optional[str] = None  # Int expression over the parameters; checked at recursive calls
     post_hook: typing.Optional[typing.Callable] = None
 
     @property
@@ -350,6 +359,8 @@ EXC_PARENTS = {
     "ArithmeticError": "Exception",
     "AttributeError": "Exception",
     "StopIteration": "Exception",
+    "UnboundLocalError": "NameError",
+    "NameError": "Exception",
     "Exception": "BaseException",
     "UndefinedError": "TemplateRuntimeError",
     "TemplateRuntimeError": "TemplateError",
@@ -379,6 +390,8 @@ class Ctx:
         self.contract = contract
         self.fname = fname
         self.pc: typing.List[str] = []
+        self.mutated: typing.Set[str] = set()  # value-sorted parameters mutated in place
+        self.rebound: typing.Set[str] = set()  # parameters rebound to a new object by a plain assignment
         self.stale: typing.Set[int] = set()  # pc entries that only talk about state that a loop cut has havoced
         self.decls: typing.List[str] = list(contract.decls)
         self.heap: typing.Dict[int, typing.Dict[str, V]] = {}
@@ -654,6 +667,8 @@ class Engine:
         self.eq_hooks: typing.Dict[str, typing.Callable] = {}
         self.spec_fns: typing.Dict[str, typing.Callable] = {}
         self.context_managers: typing.Set[str] = {"TextIO", "File"}
+        self.mutators: typing.Dict[str, typing.Callable] = {}
+        self.ghost_classes: typing.Set[str] = set()  # iteration-protocol objects: their fields are ghost state
         from . import epy_lib
 
         epy_lib.install(self)
@@ -695,6 +710,10 @@ class Engine:
             interp = Interp(self, ctx, loop_ids)
             for name, spec in c.params.items():
                 ctx.env[name] = ctx.make(spec, name)
+            if fn.args.vararg is not None:
+                ctx.env[fn.args.vararg.arg] = VConst("passthrough")
+            if fn.args.kwarg is not None:
+                ctx.env[fn.args.kwarg.arg] = VConst("passthrough")
             for name, spec in c.ghost.items():
                 ctx.ghost[name] = ctx.make(spec, "ghost." + name)
             for name, b in c.bindings.items():
@@ -703,6 +722,7 @@ class Engine:
                 ctx.env.setdefault(name, b)
             ctx.snapshot_old()
             ctx.old_ghost = dict(ctx.ghost)  # type: ignore
+            interp._outer_old_env = dict(ctx.old_env)  # type: ignore
             for r in c.requires:
                 ctx.assume(interp.spec_bool(r))
             outcome: typing.Tuple[str, typing.Any]
@@ -783,6 +803,7 @@ class Interp:
     def check_post(self, outcome: typing.Tuple[str, typing.Any]) -> None:
         c = self.ctx.contract
         ctx = self.ctx
+        self.check_frame()
         # exceptional behaviour: "raises E iff when"
         old = self._old_view()
         if outcome[0] == "return":
@@ -811,6 +832,30 @@ class Interp:
                 for name, text in rs.ensures:
                     ctx.prove(self.spec_bool(text), "post", f"{rs.exc}:{name}")
         del old
+
+    def check_frame(self) -> None:
+        """Frame: every heap field of a parameter object and every in-place mutated value parameter that the contract
+        does not list under `modifies` must be unchanged at exit."""
+        ctx = self.ctx
+        c = ctx.contract
+        for m in sorted(ctx.mutated):
+            if m not in c.modifies:
+                ctx.prove("false", "frame", f"{m}-mutated-in-place-but-not-in-modifies")
+        for pname in c.params:
+            o = ctx.old_env.get(pname)
+            if not isinstance(o, VObj) or o.cls in self.e.ghost_classes:
+                continue
+            for fld, oldv in ctx.old_heap.get(o.ref, {}).items():
+                if f"{pname}.{fld}" in c.modifies:
+                    continue
+                newv = ctx.heap[o.ref].get(fld)
+                if newv is oldv or newv == oldv:
+                    continue
+                try:
+                    g = self.equals(newv, oldv).t  # type: ignore
+                except OutOfSubset:
+                    g = "false"
+                ctx.prove(g, "frame", f"{pname}.{fld}-unchanged")
 
     def _old_view(self):
         return None
@@ -852,6 +897,8 @@ class Interp:
     def s_Assign(self, s: ast.Assign) -> None:
         v = self.eval(s.value)
         for t in s.targets:
+            if isinstance(t, ast.Name) and t.id in self.ctx.contract.params:
+                self.ctx.rebound.add(t.id)
             self.assign(t, v)
 
     def s_AnnAssign(self, s: ast.AnnAssign) -> None:
@@ -868,6 +915,8 @@ class Interp:
     def assign(self, t: ast.expr, v: V) -> None:
         ctx = self.ctx
         if isinstance(t, ast.Name):
+            if not getattr(self, "_in_store_hook", False) and t.id in ctx.contract.params and not ctx.spec_mode:
+                pass
             ctx.env[t.id] = self.named(v, t.id)
         elif isinstance(t, (ast.Tuple, ast.List)):
             items = self.unpack(v, len(t.elts))
@@ -890,9 +939,16 @@ class Interp:
             nv = h(self, o, k, v)
             if nv is not None:
                 # value-semantics container: rebind the root name
+                self._note_mutation(t.value)
                 self.assign(t.value, nv)
         else:
             raise OutOfSubset(f"assignment target {type(t).__name__}")
+
+    def _note_mutation(self, target: ast.expr) -> None:
+        """An in-place mutation of a value-sorted container reached through `target`: if the root is a parameter that
+        still holds the caller's object, the caller sees it -> it must be in the contract's `modifies`."""
+        if isinstance(target, ast.Name) and target.id in self.ctx.contract.params and target.id not in self.ctx.rebound:
+            self.ctx.mutated.add(target.id)
 
     def named(self, v: V, hint: str) -> V:
         """Give a compound term a name (fresh constant + defining equation): keeps queries small and shared."""
@@ -930,7 +986,10 @@ class Interp:
 
     def s_Raise(self, s: ast.Raise) -> None:
         if s.exc is None:
-            raise OutOfSubset("bare raise")
+            stack = getattr(self, "_exc_stack", [])
+            if not stack:
+                raise OutOfSubset("bare raise outside a handler")
+            raise PyRaise(stack[-1].exc, stack[-1].payload)
         exc = s.exc
         payload = None
         if isinstance(exc, ast.Call):
@@ -964,7 +1023,11 @@ class Interp:
                 if any(exc_isa(e.exc, n) for n in names):
                     if h.name:
                         self.ctx.env[h.name] = VConst(("exception", e.exc))
-                    self.exec_block(h.body)
+                    self.__dict__.setdefault("_exc_stack", []).append(e)
+                    try:
+                        self.exec_block(h.body)
+                    finally:
+                        self._exc_stack.pop()
                     return
             raise
         else:
@@ -1141,6 +1204,9 @@ class Interp:
             raise PathEnd()
         else:
             proto.done()
+            if isinstance(s.target, ast.Name) and s.target.id not in ctx.env and hasattr(proto, "shape"):
+                # after the loop the target is bound only if the body ran at least once (then: some element)
+                ctx.env[s.target.id] = VMaybeUnbound(proto.shape())
             self.exec_block(s.orelse)
 
     def s_With(self, s: ast.With) -> None:
@@ -1178,7 +1244,13 @@ class Interp:
     def e_Name(self, n: ast.Name) -> V:
         ctx = self.ctx
         if n.id in ctx.env:
-            return ctx.env[n.id]
+            v = ctx.env[n.id]
+            if isinstance(v, VMaybeUnbound):
+                if ctx.branch(VBool(ctx.fresh("Bool", f"{n.id}.unbound")), "maybe-unbound"):
+                    raise PyRaise("UnboundLocalError")
+                ctx.env[n.id] = v.val
+                return v.val
+            return v
         if ctx.spec_mode and n.id in ctx.ghost:
             return ctx.ghost[n.id]
         if n.id in ("True", "False", "None"):
@@ -1194,6 +1266,14 @@ class Interp:
 
     def e_List(self, n: ast.List) -> V:
         return VList([self.eval(x) for x in n.elts])
+
+    def e_Dict(self, n: ast.Dict) -> V:
+        h = self.e.intrinsics.get("dict-literal")
+        if h is None:
+            raise OutOfSubset("dict literal")
+        keys = [self.eval(k) for k in n.keys]  # type: ignore
+        vals = [self.eval(v) for v in n.values]
+        return h(self, keys, vals)
 
     def e_JoinedStr(self, n: ast.JoinedStr) -> V:
         # f-strings only occur in messages; result is an unconstrained string
@@ -1492,17 +1572,42 @@ class Interp:
         # spec-only functions get unevaluated AST access (old, forall, implies ...)
         if isinstance(n.func, ast.Name) and n.func.id in self.e.spec_fns and n.func.id not in ctx.env:
             return self.e.spec_fns[n.func.id](self, n)
+        if isinstance(n.func, ast.Attribute) and self.e.mutators:
+            recv = self.eval(n.func.value)
+            key = f"{recv.cls if isinstance(recv, VObj) else recv.sort}.{n.func.attr}"
+            if key in self.e.mutators:
+                # in-place mutation of a value-sorted container: compute the new value, rebind the receiver
+                margs = [self.eval(a) for a in n.args]
+                new = self.e.mutators[key](self, recv, *margs)
+                self._note_mutation(n.func.value)
+                tgt = copy.copy(n.func.value)
+                tgt.ctx = ast.Store()  # type: ignore
+                self.assign(tgt, new)
+                return NONE
         f = self.eval(n.func)
         args = []
         for a in n.args:
             if isinstance(a, ast.Starred):
+                v = self.eval(a.value)
+                if isinstance(v, (VList, VTuple)):
+                    args.extend(v.items)
+                    continue
+                if isinstance(v, VConst) and v.obj == "passthrough":
+                    continue  # *args handed on untouched to an abstract callee
+                if isinstance(v, VData):
+                    self.e.used(f"*{ast.unparse(a.value)}: an opaque sequence handed to a callee whose contract does not depend on it")
+                    continue
                 raise OutOfSubset("star-args")
             args.append(self.eval(a))
         kwargs = {}
         for k in n.keywords:
             if k.arg is None:
+                v = self.eval(k.value)
+                if isinstance(v, VConst) and v.obj == "passthrough":
+                    continue
                 raise OutOfSubset("**kwargs")
             kwargs[k.arg] = self.eval(k.value)
+        self._call_node = n
         return self.call(f, args, kwargs, n)
 
     def call(self, f: V, args: typing.List[V], kwargs: typing.Dict[str, V], n: typing.Optional[ast.AST] = None) -> V:
@@ -1567,6 +1672,8 @@ class Interp:
     def call_contract(self, key: str, args: typing.List[V], kwargs: typing.Dict[str, V]) -> V:
         c = self.e.contracts[key]
         ctx = self.ctx
+        call_node = getattr(self, "_call_node", None)
+        n_implicit = 0  # receiver prepended by the method-call path
         n = ctx.call_ordinals.get(key, 0)
         ctx.call_ordinals[key] = n + 1
         names = list(c.params)
@@ -1584,12 +1691,32 @@ class Interp:
                     env[nm] = ctx.make(spec, nm)
                 else:
                     raise OutOfSubset(f"call {key}: missing argument {nm}")
+        # value-sorted parameters the callee mutates in place: written back to the caller's variable afterwards
+        writeback: typing.Dict[str, ast.expr] = {}
+        value_mods = [m for m in c.modifies if "." not in m]
+        if value_mods:
+            if call_node is None or not isinstance(call_node, ast.Call):
+                raise OutOfSubset(f"call {key}: in-place mutation of an argument needs a syntactic call site")
+            n_implicit = len(args) - len(call_node.args)
+            for m in value_mods:
+                i = names.index(m) - n_implicit
+                if 0 <= i < len(call_node.args):
+                    writeback[m] = call_node.args[i]
+                else:
+                    kw = [k for k in call_node.keywords if k.arg == m]
+                    if not kw:
+                        raise OutOfSubset(f"call {key}: cannot locate the argument for modified parameter {m}")
+                    writeback[m] = kw[0].value
         saved_env = ctx.env
         saved_old = (ctx.old_env, ctx.old_heap, getattr(ctx, "old_ghost", {}))
         ctx.env = dict(env)
         for name, b in c.bindings.items():
             ctx.env.setdefault(name, b if isinstance(b, V) else VConst(b))
         try:
+            if c.decreases and c is ctx.contract:
+                d_new = self.spec_eval(c.decreases)
+                d_old = self._in_old_outer(saved_env, lambda: self.spec_eval(c.decreases))
+                ctx.prove(And(app("<=", "0", d_new.t), app("<", d_new.t, d_old.t)), "variant", f"recursion@call{n}")  # type: ignore
             for i, r in enumerate(c.requires):
                 ctx.prove(self.spec_bool(r), "pre", f"{key}.requires{i}@call{n}")
                 ctx.assume(self.spec_bool(r))
@@ -1611,10 +1738,32 @@ class Interp:
             result = ctx.make(c.result, f"{key}.result", model=False) if c.result is not None else NONE
             for _, text in c.ensures:
                 ctx.assume(self.spec_bool(text, {"result": result}))
+            if writeback:
+                new_vals = {m: ctx.env[m] for m in writeback}
+                ctx.env = saved_env
+                for m, target in writeback.items():
+                    if isinstance(target, ast.Name):
+                        ctx.env[target.id] = new_vals[m]
+                        self._note_mutation(target)
+                    else:
+                        self.e.used(f"call {key} in {ctx.fname}: the in-place effect on the temporary argument `{ast.unparse(target)}` is "
+                                    "observed only through the returned value (value semantics; aliasing is the freshness check's business)")
             return result
         finally:
             ctx.env = saved_env
             ctx.old_env, ctx.old_heap, ctx.old_ghost = saved_old  # type: ignore
+
+    def _in_old_outer(self, caller_env: typing.Dict[str, V], f: typing.Callable[[], typing.Any]) -> typing.Any:
+        """Evaluate in the *verified function's* entry state (its old_env), used for the recursion variant."""
+        ctx = self.ctx
+        env = ctx.env
+        ctx.env = dict(self._outer_old_env)
+        for name, b in ctx.contract.bindings.items():
+            ctx.env.setdefault(name, b if isinstance(b, V) else VConst(b))
+        try:
+            return f()
+        finally:
+            ctx.env = env
 
     def _apply_modifies(self, c: Contract) -> None:
         ctx = self.ctx
@@ -1622,6 +1771,9 @@ class Interp:
             if loc.startswith("ghost."):
                 g = loc[6:]
                 ctx.ghost[g] = self._fresh_like(ctx.ghost[g], loc)
+                continue
+            if "." not in loc:
+                ctx.env[loc] = self._fresh_like(ctx.env[loc], loc)
                 continue
             base, fld = loc.split(".", 1)
             o = ctx.env.get(base)
